@@ -237,10 +237,14 @@ def scen_filter(cfg):
         same_cells = all(out.vertices[n] is g.vertices[n] for n in out.vertices) and all(out.edges[c] is g.edges[c] for c in out.edges)
         source_intact = sorted(g.vertices.keys()) == names and set(g.edges.keys()) == set(conns)  # filtering returns a new graph, the filtered one is unchanged
         # EpisodeRecord.filter
+        iname = (lambda s_: f"in_{s_}") if cfg.get("shadow") else (lambda s_: s_)  # the name under which the step sees the input
+
         def nr(n):
             ins = {s: base.InputRecord(info=None, messages=None) for (s, t) in conns if t == n}
-            info = base.NodeInfo(rate=1.0, advance=False, scheduling=None, phase=0.0, delay_dist=None, delay=0.0, inputs={s: ("info", s, n) for s in ins}, name=n, cls="x", color="gray", order=0)
-            return base.NodeRecord(info=info, clock=None, real_time_factor=None, ts_start=0.0, params=None, inputs=ins, steps=None)
+            iinfo = lambda s_: base.InputInfo(rate=None, window=None, blocking=None, skip=None, jitter=None, phase=None, delay_dist=None, delay=None, name=iname(s_), output=s_)
+            info = base.NodeInfo(rate=1.0, advance=False, scheduling=None, phase=0.0, delay_dist=None, delay=0.0, inputs={s: iinfo(s) for s in ins}, name=n, cls="x", color="gray", order=0)
+            steps = base.StepRecord(eps=None, seq=None, ts_start=None, ts_end=None, delay=None, rng=None, inputs={iname(s): ("window", s, n) for s in ins}, state=None, output=None)
+            return base.NodeRecord(info=info, clock=None, real_time_factor=None, ts_start=0.0, params=None, inputs=ins, steps=steps)
         rec = base.EpisodeRecord(nodes={n: nr(n) for n in names})
         rout = rec.filter(nodes, filter_connections=cfg["flag"])
         got_r = {(s, n) for n, v in rout.nodes.items() for s in v.inputs}
@@ -254,6 +258,8 @@ def scen_filter(cfg):
             and all(set(rec.nodes[n].inputs.keys()) == {s for (s, t) in conns if t == n} for n in names),
             "EpisodeRecord.filter keeps precisely the selected nodes and the connections among them (per flag), infos filtered alike": sorted(rout.nodes.keys()) == sorted(sel) and got_r == want_r
             and all(set(v.info.inputs.keys()) == set(v.inputs.keys()) for v in rout.nodes.values()),
+            "EpisodeRecord.filter: the recorded per-step input windows are those of the kept connections only": all(
+                set(v.steps.inputs.keys()) == {iname(s_) for s_ in v.inputs} for v in rout.nodes.values()),
         }
 
     return scenario
